@@ -449,9 +449,12 @@ class FramesDomain(Domain):
     def subscript(self, interp, val, index_node, index_val, node):
         if isinstance(val, (Vec, RotVecV)):
             # [:, k] selects a component; [i] / [mask] / [:, None] keep rows
-            if isinstance(index_node, ast.Tuple) and len(index_node.elts) == 2:
+            if isinstance(index_node, ast.Tuple) and len(index_node.elts) in (2, 3):
                 second = index_node.elts[1]
-                if isinstance(second, ast.Constant) and isinstance(second.value, int) and not isinstance(second.value, bool) and isinstance(index_node.elts[0], ast.Slice):
+                # v[:, k]  and  v[:, k, np.newaxis] / v[:, k, None] (the same component kept as a column)
+                extra_ok = len(index_node.elts) == 2 or norm_src(index_node.elts[2]) in ("np.newaxis", "None", "numpy.newaxis")
+                if isinstance(second, ast.Constant) and isinstance(second.value, int) and not isinstance(second.value, bool) and isinstance(index_node.elts[0], ast.Slice) \
+                        and extra_ok:
                     return Comp(val, second.value)
             return val
         if isinstance(val, (Quat, Rot, RotMat, Comp)):
